@@ -22,6 +22,9 @@ CHECKS = {
  "C11": dict(cat="model_checking", tech="TLA+ game-history specification (ChessGame.tla: FIDE repetition keys, 50-move count, console draw-claim state machine) + TLC trace validation of engine scores and console-game command traces",
    text="spec/ChessGame.tla defines third occurrence (FideKey), 50-move completion and the console game's command/state machine. TLC validates (a) engine traces: for histories with shuffles, hmc 90..110 and pseudo-ep first occurrences, every root move's own exact score (MultiPV over all root moves) must be cp 0 when the move creates a third occurrence or completes 50 moves, mate 1 if it mates; (b) console traces: after every command of random command sequences (moves, draw rep/50 claims, offer/accept, undo/redo, resign, setpos) return value, game state, draw-offer flag and position agree with the specification.",
    note="Trusted: TLC, Chess.tla/ChessGame.tla, harness/h_game.cpp, python UCI driver. Contempt 0."),
+ "C12": dict(cat="model_checking", tech="TLA+ Bellman/DTM specification over the rule book (FewMen.tla) + TLC validation of table rows (certificates) and of abort-injection traces",
+   text="For rows of the real TBGenerator (own-memory and in-hash back ends) TLC checks against the rule book: successor list = Legal(pos), the Bellman optimality equation between the row value and all probed successor values (mate/stalemate leaves included), 'not found' exactly outside the table's scope (castling rights, pawns, foreign material). One 3-man class is enumerated over all 64^3 x 2 raw placements per run, the other 3-man and a rotating sample of 4-man classes are sampled. Aborts are injected at every phase boundary through a TEXEL_VERIF hook that arms the real time-limit/stop tests, followed by hash traffic; every later probe must be unanswered and a completed table must lie outside the hash region.",
+   note="Trusted: TLC, Chess.tla/FewMen.tla, harness/h_tb.cpp; exactness follows from local consistency on all rows (exhaustive class) and is sampled elsewhere."),
 }
 
 NOT_APPLICABLE = {
